@@ -55,13 +55,15 @@ fn pair(i: usize, acct: &'static str) -> (Option<&'static str>, Option<&'static 
         9 => (Some("0"), Some(acct)),
         10 => (Some("abc"), Some("X")),
         11 => (Some("0.25 "), Some(acct)),
-        _ => (Some(" 0.25"), Some(acct)),
+        12 => (Some(" 0.25"), Some(acct)),
+        // another rate, collected by the ask-fee account (for the bid pair: one account for both fees, two rates)
+        _ => (Some("0.5"), Some("askfee")),
     }
 }
 fn attrs(i: usize) -> Vec<&'static str> {
     [vec![], vec!["kyc"]][i].clone()
 }
-const DIMS: [usize; 10] = [2, 2, 2, 3, 6, 5, 13, 13, 2, 2];
+const DIMS: [usize; 10] = [2, 2, 2, 3, 6, 5, 14, 14, 2, 2];
 
 impl Shape {
     fn baseline(p: u128, inc: u128) -> Shape {
